@@ -1,4 +1,4 @@
-"""Source facts for C15: the hand-modelled control flow of h3/src/qpack/prefix_string/decode.rs.
+"""Source facts for C15: the hand-modelled control flow of h3/src/qpack/prefix_string/{decode,encode,bitwin}.rs.
 
 The bodies of HuffmanDecoder::{check_eof, fetch_value, decode_next}, read_bits, DecodeIter::check_padding and
 DecodeIter::next are anchored WHOLE: comment-free, whitespace-free text must equal the templates below; only
@@ -71,6 +71,21 @@ READ_BITS = tmpl(
     '((result<<bit_offset)>>(<<rb_w16>>-len))asu8})')
 
 
+# exact (comment-free, whitespace-free) bodies of the remaining hand-modelled control flow; <<N>> = a number read elsewhere
+EXACT = {
+    'enc_new': 'HuffmanEncoder{buffer_pos:BitWindow::new(),buffer:Vec::new(),}',
+    'enc_ensure_free_space': 'letmutend_range=self.buffer_pos.clone();end_range.forwards(bit_count);end_range.forwards(0);ifself.buffer.len()>end_range.byteasusize{return;}ifself.buffer.capacity()<=end_range.byteasusize{self.buffer.reserve(((<<N>>*end_range.byte)/<<N>>)asusize);}letforward=end_range.byteasusize-self.buffer.len()+ifend_range.bit>0{1}else{0};for_in0..forward{self.buffer.push(255);}',
+    'enc_put': 'letencode_value=&HPACK_STRING[codeasusize];self.ensure_free_space(encode_value.bit_count);letmutrest=encode_value.bit_count;foriin0..encode_value.buffer.len(){letpart=encode_value.buffer[i];self.buffer_pos.forwards(ifrest<8{rest}else{8});rest-=self.buffer_pos.count;write_bits(&mutself.buffer,&self.buffer_pos,part)}Ok(())',
+    'enc_ends': 'Ok(self.buffer)',
+    'enc_write_bits': 'debug_assert!(pos.bit<8);debug_assert!(pos.count<=8);debug_assert!(pos.count>0);if(pos.bit+pos.count)<=8{debug_assert_eq!(out[pos.byteasusize]|PAD_LEFT[pos.bitasusize],255);letpad_left=out[pos.byteasusize]|PAD_RIGHT[(8-pos.bit)asusize];letshifted=value<<(8-pos.bit-pos.count)|PAD_LEFT[pos.bitasusize];letpad_right=PAD_RIGHT[(8-pos.count-pos.bit)asusize];out[pos.byteasusize]=(pad_left&shifted)|pad_right;}else{debug_assert_eq!(out[pos.byteasusize]|PAD_LEFT[pos.bitasusize],255);letsplit=8-pos.bit;letpad_left=out[pos.byteasusize]|PAD_RIGHT[splitasusize];letshifted=(value>>(pos.count-split))|PAD_LEFT[pos.bitasusize];out[pos.byteasusize]=pad_left&shifted;letrem=8-(pos.count-split);out[(pos.byte+1)asusize]=(value<<rem)|PAD_RIGHT[remasusize];}',
+    'enc_hpack_encode': 'letmutencoder=HuffmanEncoder::new();forcodeinself{encoder.put(*code)?;}encoder.ends()',
+    'dec_hpack_decode': 'DecodeIter{bit_pos:BitWindow::new(),content:self,symbol_end:0,finished:false,}',
+    'dec_DecodeIter': "bit_pos:BitWindow,content:&'aVec<u8>,symbol_end:usize,finished:bool,",
+    'bitwin_derive': 'Debug,Default,PartialEq,Clone',
+    'bitwin_new': 'Self::default()',
+}
+
+
 def need(rx, body, what):
     m = rx.match(squeeze(body))
     if not m:
@@ -85,6 +100,24 @@ def extract(repo):
                      ('read_bits', READ_BITS), ('check_padding', CHECK_PADDING), ('next', NEXT)):
         body, spans[name] = src.fn_body(name)
         f.update(need(rx, body, name))
+    enc = Source(repo + '/h3/src/qpack/prefix_string/encode.rs')
+    bw = Source(repo + '/h3/src/qpack/prefix_string/bitwin.rs')
+    got = {}
+    for fn, nth in (('new', 0), ('ensure_free_space', 0), ('put', 0), ('ends', 0), ('write_bits', 0), ('hpack_encode', 1)):
+        body, spans['enc_' + fn] = enc.fn_body(fn, nth=nth)
+        got['enc_' + fn] = squeeze(body)
+    body, spans['dec_hpack_decode'] = src.fn_body('hpack_decode', nth=1)
+    got['dec_hpack_decode'] = squeeze(body)
+    blk, spans['dec_DecodeIter'], _ = src.item_block(r"pub\s+struct\s+DecodeIter<'a>")
+    got['dec_DecodeIter'] = squeeze(blk)
+    m = re.search(r'#\[derive\(([^)]*)\)\]\s*pub\s+struct\s+BitWindow', bw.text)
+    got['bitwin_derive'] = squeeze(m.group(1)) if m else ''
+    body, spans['bitwin_new'] = bw.fn_body('new')
+    got['bitwin_new'] = squeeze(body)
+    got['enc_ensure_free_space'] = re.sub(r'\(\(\d+\*end_range\.byte\)/\d+\)', '((<<N>>*end_range.byte)/<<N>>)', got['enc_ensure_free_space'])
+    for k, want in EXACT.items():
+        if got.get(k) != want:
+            raise AnchorLost('%s: body changed' % k)
     # read_bits is modelled with the literal 8/16-bit layout: its constants must be the expected ones
     expect = dict(rb_max=8, rb_m1=8, rb_m2=8, rb_d1=8, rb_d2=8, rb_m3=8, rb_one=8, rb_w8=8, rb_sh8=8, rb_w16=16)
     for k, v in expect.items():
